@@ -65,6 +65,34 @@ func genBuiltinCalls(stream string, seed uint64, perFn int) []GenCase {
 			add("return "+fn+"("+strings.Join(as, ", ")+");", "builtin:"+fn, fmt.Sprintf("arity%d", n))
 		}
 	}
+	// min / max / between agree with the language's own <= : on small numbers and where float64 cannot tell
+	// two integers apart (above 2^53), int against int, int against float (on a numeric tie between an
+	// integer and a float both are 'the smaller'; the expectation takes the first argument, as the built-ins do)
+	bigs := []string{"9007199254740991", "9007199254740992", "9007199254740993", "9223372036854775806", "9223372036854775807",
+		"-9007199254740992", "-9007199254740993", "-9223372036854775807", "4611686018427387904", "4611686018427387905",
+		"9007199254740992.0", "-9007199254740992.0", "0", "3", "2.5"}
+	for _, a := range bigs {
+		for _, b := range bigs {
+			c := Case{ID: fmt.Sprintf("%s-%d", stream, id), Opt: r.Bool(), Fns: []HostFn{recFn()}, Tags: []string{"minmax-agree"},
+				Script: fmt.Sprintf("a = %s; b = %s; return [min(a, b), (a <= b) ? a : b, max(a, b), (b <= a) ? a : b, between(a, b, b), (b <= a) && (a <= b), between(a, a, b), (a <= a) && (a <= b)];", a, b),
+				Runs: []Run{{Obj: stdObject(r), Polls: defaultPolls}}}
+			id++
+			out = append(out, GenCase{Case: c, Stream: stream, NonTrivial: true, Role: "agree:pairs"})
+		}
+	}
+	// join(split(s, d), d) is s: every string against every separator, including strings that end in
+	// (characters of) the separator, empty pieces, multi-character and non-ASCII separators
+	jstrs := []string{"", "a", "a,b,", ",", ",,", ",a", "a,b,c", "x::y::", "x::y:", "a, b, c ", "a, b, c, ", "lll", "abab", "ababa", "π-é-", "-", "ab", "é", "ééé"}
+	jseps := []string{",", "::", ":", ", ", "l", "ab", "ba", "-", "", "é", " "}
+	for _, js := range jstrs {
+		for _, jd := range jseps {
+			c := Case{ID: fmt.Sprintf("%s-%d", stream, id), Opt: r.Bool(), Fns: []HostFn{recFn()}, Tags: []string{"split-join-product"},
+				Script: fmt.Sprintf("s = %q; d = %q; return join(split(s, d), d) == s;", js, jd),
+				Runs:   []Run{{Obj: stdObject(r), Polls: defaultPolls}}}
+			id++
+			out = append(out, GenCase{Case: c, Stream: stream, NonTrivial: true, Role: "expecttrue"})
+		}
+	}
 	// well-typed uses
 	for k := 0; k < perFn*4; k++ {
 		switch r.Intn(12) {
